@@ -20,6 +20,18 @@ def stCmd (hp : Heap Int) (args : List String) : Heap Int × String :=
       | none => (hp, "stuck")
     | none => (hp, "bad-op")
   | ["new"] => let (hp', r) := hp.alloc; (hp', s!"ref {r}")
+  | "lit" :: kvs =>
+    let rec pairs : List String → Option (List (Int × Int))
+      | [] => some []
+      | k :: v :: rest => match k.toInt?, v.toInt?, pairs rest with
+        | some k, some v, some r => some ((k, v) :: r)
+        | _, _, _ => none
+      | _ => none
+    match pairs kvs with
+    | some inits => match hp.allocWith (fun _ x => x) inits with
+      | some (hp', r) => (hp', s!"ref {r}")
+      | none => (hp, "stuck")
+    | none => (hp, "bad-op")
   | ["set", r, k, v] =>
     match r.toNat?, k.toInt?, v.toInt? with
     | some r, some k, some v =>
